@@ -20,6 +20,8 @@ func TestVerif(t *testing.T) {
 		h = txHarness{prop: e.Prop}
 	case "C02":
 		h = c02Harness{}
+	case "C07":
+		h = c07Harness{}
 	case "C04", "C05", "C06":
 		h = resumeHarness{prop: e.Prop}
 	default:
